@@ -99,6 +99,19 @@ def _current(path, field):
     return None
 
 
+def _first_tier(path):
+    """The URLs of the first tier of announce-list as text, or None."""
+    try:
+        with open(path, "rb") as fh:
+            rootn, _, _ = bdecode_strict(fh.read())
+        al = rootn.get(b"announce-list")
+        if al is not None and al.kind == "list" and al.val and al.val[0].kind == "list":
+            return [x.val.decode("utf-8") for x in al.val[0].val if x.kind == "str"] or None
+    except Exception:
+        pass
+    return None
+
+
 def run_history(case):
     sbx = new_sandbox("ed")
     recs = []
@@ -165,6 +178,9 @@ def run_history(case):
                 d[b"url-list"] = b"http://single.example/seed"      # BEP 19: a single string
             if b"announce" not in d and b"announce-list" not in d and case.get("foreign_private"):
                 d[b"announce-list"] = [[b"http://only-list.example/a"], [b"udp://second.example:1/a"]]   # tiers, no announce
+            if case.get("list_only"):        # one tier of two trackers and NO announce key (legal: BEP 12 readers use the list)
+                d.pop(b"announce", None)
+                d[b"announce-list"] = [[b"http://tier.example/a", b"udp://tier.example:2/b"]]
             raw = bencode(d)
             with open(out, "wb") as fh:
                 fh.write(raw)
@@ -195,6 +211,10 @@ def run_history(case):
                     cur = _current(out, f)
                     if cur is not None:
                         val = cur if f in ("comment", "source") else [cur]
+                    if f == "announce" and stp.get("tier"):      # ... exactly the trackers of the existing first tier
+                        tier0 = _first_tier(out)
+                        if tier0:
+                            val = tier0
                 if f in ("comment", "source"):
                     want[key] = hexs(val)
                     args[f] = val
